@@ -35,7 +35,7 @@ claimed = {
    text="Stream-level symbolic execution of the real (de)serialisation code (ring.Poly through structs.Matrix/Vector and utils/buffer): round trip with all payload words symbolic through WriteTo/ReadFrom and MarshalBinary/UnmarshalBinary into fresh and reused receivers, announced size, every truncation point, corrupted length fields (classes small / negative / huge) with the allocation obligation on every symbolic make.",
    ref="DESIGN.md §6-C08", technique="SSA symbolic execution of the codecs over symbolic byte streams + SMT (BV); path forking on stream-dependent branches; native replay"),
  "C09": dict(
-   text="For the bgv evaluator's binary operations (Add, Sub, Mul, MulRelin, MulRelinThenAdd; equal and different scales): every operand is compared coefficient-wise (atoms) before and after the call, the operation is repeated with the output aliased to the first and to the second operand and into an output object that previously held a larger-degree ciphertext, and the results must be identical polynomials / decrypt identically; big.Int scalar operands must be unchanged.",
+   text="For the bgv evaluator's binary operations (Add, Sub, Mul, MulRelin, MulRelinThenAdd; equal and different scales): every operand is compared coefficient-wise (atoms) before and after the call, the operation is repeated with the output aliased to the first and to the second operand and into an output object that previously held a larger-degree ciphertext, and the results must be identical polynomials / decrypt identically; big.Int scalar operands must be unchanged. The same for the ckks evaluator at ring level (Add, Sub, Mul, MulRelin at two levels, Rescale in and out of place, integer scalar operations into larger used outputs) and for the bgv unary/scalar operations.",
    ref="DESIGN.md §6-C09", technique="SSA symbolic execution in the algebraic slot model (exact polynomial identity of outputs across aliasing patterns) + SMT (LIA)"),
  "C10": dict(
    text="Differential + heap-model checking of the copy constructors from go/ssa (rlwe Evaluator/Encryptor/Decryptor ShallowCopy/WithKey/WithPRNG, bgv/ckks evaluators, deep copies of ciphertexts, plaintexts, keys, metadata): the same operation on the same symbolic inputs (every coefficient a free field element) through the original and through the copy must give identical results; an operation on the copy must leave every object reachable from the original unchanged (engine heap snapshot), a mutation of a deep copy must not reach the original, and no object written during an operation on a copy documented as concurrently usable may be reachable from the original (write-set separation: sufficient for race freedom of one-copy-per-goroutine, for all data values). Goroutine schedules and the race detector's view are outside: a sequential symbolic executor does not explore interleavings.",
